@@ -14,15 +14,21 @@ MANIFEST = dict(
     technique='Lean 4 proof by composition of existing theorems + four-way differential run of the real transports against each other, the scripted conversation and the compiled model pipelines',
     design='5/C15',
 )
-GEN = ["UrlRules", "Versions"]
+GEN = []
 THEOREMS = [
     "c15_stdio_transcript", "c15_httpJson_transcript", "c15_httpSse_transcript", "c15_sse_transcript",
     "c15_transcript", "c15_carrier_agnostic", "c15_expressible_everywhere",
     "c15_real_codec_stdio", "c15_real_codec_stdio_line", "c15_real_codec_http", "c15_real_codec_sse",
     "c15_real_transcript", "c15_helpers_agree",
-    "c15_client_trace_shape", "c15_client_init_once", "c15_client_lazy_init", "c15_client_initialized_stable", "c15_client_rejected_args", "c15_client_agnostic",
-    "c15_url_heuristics", "c15_detect_sound", "c15_detect_probes", "c15_detect_guard",
-    "c15_fallback_decision", "c15_try_sse_decision", "c15_instances_independent", "c15_stdio_instances",
+]
+# Supplementary (Props/C15Supp.lean; never a verdict about C15): the MCPClient layer, the transport-selection
+# logic over the tables re-read from the source, the transport factory, several instances in one process
+SUPP_GEN = ["UrlRules", "Versions"]
+SUPP_THEOREMS = [
+    "c15_client_trace_shape", "c15_client_init_once", "c15_client_lazy_init", "c15_client_initialized_stable",
+    "c15_client_rejected_args", "c15_client_agnostic",
+    "c15_url_heuristics", "c15_detect_sound", "c15_detect_probes", "c15_detect_guard", "c15_fallback_decision", "c15_try_sse_decision",
+    "c15_instances_independent", "c15_stdio_instances",
 ]
 RULE = (
     "conversations of 1..4 sequential exchanges: client call = every discovered typed helper / send_initialize / "
@@ -538,6 +544,7 @@ class Clients(Conversations):
     operation results and errors carrier against carrier and against the scripted conversation (oracle),
     and against the client model (initialize once, lazily, `set_protocol_version` with the answered version)"""
     name = "mcpclient"
+    supplementary = True   # its oracle (carrier vs carrier vs script) is the property; the comparison with the client model is not
 
     def cases(self, ctx, budget):
         n = {"quick": 260, "thorough": 6000, "search": 1500}[budget]
@@ -661,6 +668,7 @@ class Detection(Suite):
     `try_http_with_sse_fallback`) against the model over the regenerated tables.  Supplementary to the
     property: there is no oracle, a difference is a broken correspondence."""
     name = "detection"
+    supplementary = True
 
     def cases(self, ctx, budget):
         n = {"quick": 1500, "thorough": 20000, "search": 0}[budget]
@@ -714,6 +722,9 @@ def suites():
 
 def extra(ctx, tier):
     """a harness that could not run a case yields no verdict for it: never pass silently"""
+    if (_SUITE.feats or {}).get("url-tables:not-reread(verified-commit tables)"):
+        print("INFO property=C15 supplementary=detection: a transport-selection function is outside the shapes the translator "
+              "recognises; Gen/UrlRules keeps the tables of the verified commit for it (the correspondence run compares model and code either way)")
     for f, n in sorted((_SUITE.feats or {}).items()):
         ctx.dist["feat:" + f] += n   # coverage of branches / kinds, so that gaps are visible
     _SUITE.feats = None
